@@ -64,3 +64,79 @@ def canonicalise(raw):
                 walk(v)
     walk(raw)
     return raw, m
+
+
+def canonicalise_fields(raw):
+    """Field rename tolerance: a struct of the pinned tree whose fields kept their number,
+    order and types but not their names gets the pinned names back (rules name a few private
+    fields: `path`, `system_box`, `file_infos`, ..)."""
+    with open(os.path.join(HERE, "known_functions.json")) as f:
+        table = json.load(f).get("adt_fields", {})
+    ren = {}
+    for a in raw["adts"]:
+        want = table.get(a["path"])
+        if want is None or a["kind"] != "struct":
+            continue
+        have = a["variants"][0]["fields"]
+        if len(have) != len(want) or [h["name"] for h in have] == [w[0] for w in want]:
+            continue
+        # same multiset of names in another order is a reordering, not a rename: positions are
+        # matched by type; ambiguous when a type occurs twice among the renamed fields
+        if all(h["ty"]["s"] == w[1] for h, w in zip(have, want)):
+            changed = [(h["name"], w[0]) for h, w in zip(have, want) if h["name"] != w[0]]
+            ren[a["path"]] = {i: w[0] for i, w in enumerate(want)}
+            for h, w in zip(have, want):
+                h["name"] = w[0]
+    if not ren:
+        return raw, {}
+
+    def walk(x):
+        if isinstance(x, dict):
+            if x.get("k") == "field" and x.get("of") in ren and isinstance(x.get("i"), int):
+                x["name"] = ren[x["of"]].get(x["i"], x.get("name"))
+            elif x.get("k") == "adt" and x.get("adt") in ren and isinstance(x.get("fields"), list):
+                m = ren[x["adt"]]
+                if len(x["fields"]) == len(m):
+                    x["fields"] = [m[i] for i in range(len(m))]
+            for v in x.values():
+                walk(v)
+        elif isinstance(x, list):
+            for v in x:
+                walk(v)
+    walk(raw["bodies"])
+    return raw, ren
+
+
+def canonicalise_adts(raw):
+    """Type rename tolerance: a struct of the pinned tree that is missing, while exactly one
+    new struct of the same module has the same sequence of field types, is that struct under
+    a new name; the pinned name is restored everywhere (type strings, paths)."""
+    import re
+    with open(os.path.join(HERE, "known_functions.json")) as f:
+        k = json.load(f)
+    table = k.get("adt_fields", {})
+    known = set(k.get("adts", []))
+    present = {a["path"]: a for a in raw["adts"]}
+    ren = {}
+    for path, want in table.items():
+        if path in present or "::" not in path:
+            continue
+        mod = path.rsplit("::", 1)[0]
+        cands = []
+        for a in raw["adts"]:
+            if a["path"] in known or a["kind"] != "struct" or a.get("in_test") or a["path"].rsplit("::", 1)[0] != mod:
+                continue
+            have = a["variants"][0]["fields"]
+            if len(have) == len(want) and all(h["ty"]["s"] == w[1] for h, w in zip(have, want)):
+                cands.append(a["path"])
+        if len(cands) == 1 and cands[0] not in ren:
+            ren[cands[0]] = path
+    if not ren:
+        return raw, {}
+    text = json.dumps(raw)
+    for new, old in ren.items():
+        text = re.sub(r"(?<![A-Za-z0-9_:])" + re.escape(new) + r"(?![A-Za-z0-9_])", old, text)
+        # the variant name of a struct is its last path segment
+        nl, ol = new.rsplit("::", 1)[1], old.rsplit("::", 1)[1]
+        text = text.replace('"variant": "%s"' % nl, '"variant": "%s"' % ol).replace('"name": "%s", "idx": 0' % nl, '"name": "%s", "idx": 0' % ol)
+    return json.loads(text), ren
